@@ -307,6 +307,35 @@ def _hrace_body(case, res):
   def mkrec():
     return test_record.TestRecord(dut_id=None, station_id='s', code_info=None, start_time_millis=0, metadata={}, diagnosers=[])
 
+  def body_ir(s):
+    # a run STARTS (its handler is registered) while another run ends (its handler is removed): the new run's handler
+    # must survive and record the run's messages
+    ra, rb, rc = mkrec(), mkrec(), mkrec()
+    res['ra'], res['rb'] = ra, rb
+    logs.initialize_record_handler('uc', rc, lambda: None)
+    logs.initialize_record_handler('ua', ra, lambda: None)
+
+    def a():
+      logs.initialize_record_handler('ub', rb, lambda: None)
+
+    def b():
+      logs.remove_record_handler('uc')
+    ths = [threading.Thread(target=a), threading.Thread(target=b)]
+    ths[0]._cosched_name, ths[1]._cosched_name = 'a', 'b'
+    for t in ths:
+      t.start()
+    for t in ths:
+      t.join()
+    for i in range(case['n']):
+      logging.getLogger(FW).info('m#%d fw', i + 1)
+      logs.get_record_logger_for('ua').info('m#%d own', 100 + i + 1)
+    logs.get_record_logger_for('ub').info('m#%d own-b', 201)
+    logs.remove_record_handler('ua')
+    logs.remove_record_handler('ub')
+    return True
+  if case.get('order') == 'ir':
+    return body_ir
+
   def body(s):
     ra, rb = mkrec(), mkrec()
     res['ra'], res['rb'] = ra, rb
@@ -335,12 +364,19 @@ def _hrace_body(case, res):
   return body
 
 
+def _hrace_codes():
+  from openhtf.util import logs
+  return sched.codes_of(logs.remove_record_handler, logs.initialize_record_handler)
+
+
 def _run_hrace(case, chooser=None):
   res = {}
   ex = sched.Explorer()
   ex.prefix = list(case['choices'])
   try:
-    box, s = sched.run(chooser or ex.choose, _hrace_body(case, res), max_steps=20000)
+    box, s = sched.run(chooser or ex.choose, _hrace_body(case, res), max_steps=20000,
+                       trace_lines=_hrace_codes() if case.get('order') == 'ir' else None,
+                       trace_opcodes=case.get('order') == 'ir')
   finally:
     logging.disable(logging.CRITICAL)
   facts = []
@@ -353,6 +389,10 @@ def _run_hrace(case, chooser=None):
   if got != want:
     facts.append('X:live-run-lost-or-duplicated-a-message-while-another-run-ended:got=%s' % '/'.join(str(x) for x in got))
   gb = _ids(res['rb'])
+  if case.get('order') == 'ir':
+    if 201 not in gb:
+      facts.append('X:run-that-started-while-another-ended-lost-its-log-handler')
+    gb = [x for x in gb if x != 201]
   if any(x > 100 for x in gb) or len(gb) != len(set(gb)):
     facts.append('X:other-run-recorded-foreign-or-duplicate-messages')
   return {'ops': [], 'obs': [], 'facts': facts}
@@ -505,6 +545,12 @@ def gen_cases(rng, tier):
     for box, s_, choices in sched.explore(_hrace_body(cfg, res), preemption_bound=2, limit=700 if quick else 6000, max_steps=20000):
       cases.append(dict(cfg, choices=choices))
     logging.disable(logging.CRITICAL)
+  cfg = {'kind': 'hrace', 'n': 1, 'order': 'ir'}
+  _setup_logging()
+  for box, s_, choices in sched.explore(_hrace_body(cfg, {}), preemption_bound=1, limit=1500 if quick else 20000, max_steps=20000,
+                                        trace_lines=_hrace_codes(), trace_opcodes=True):
+    cases.append(dict(cfg, choices=choices))
+  logging.disable(logging.CRITICAL)
   macs = ['aa:bb:cc:dd:ee:ff', 'AA:BB:CC:DD:EE:FF', '01:23:45:67:89:ab', 'aa:bb:cc:dd:ee', 'aa:bb:cc:dd:ee:ff:00', 'aa-bb-cc-dd-ee-ff',
           'aa:bb:cc:dd:ee:fg', 'xaa:bb:cc:dd:ee:ff', 'aa:bb:cc:dd:ee:ffx', '0a:1b:2c:3d:4e:5f']
   for m in macs:
